@@ -95,6 +95,8 @@ BASIC = [
                     Rule('T', S(Str('('), Asg('n', '=', ID), Asg('kids', '*=', Ref('T')), Str(')')))]),
     G('comment-line', [Rule('M', Asg('xs', '+=', INT)), COMMENT]),
     G('comment-block', [Rule('M', S(Str('a'), Asg('xs', '+=', ID))), COMMENT_BLOCK]),
+    # comments under ignore_case (the regexes of the grammar keep their other flags)
+    G('comment-line-ignore-case', [Rule('M', S(Str('a'), Asg('xs', '+=', INT))), COMMENT], ignore_case=True),
     # the Comment rule given as a reference to another rule / as a choice of rules
     G('comment-rule-ref', [Rule('M', Asg('xs', '+=', INT)), Rule('Comment', Ref('CLine')), Rule('CLine', Re(r'//.*?$'))]),
     G('comment-rule-choice', [Rule('M', Asg('xs', '+=', INT)), Rule('Comment', A(Ref('CLine'), Ref('CHash'))),
@@ -270,6 +272,10 @@ KEYWORDS = [
     G('kw-list', [Rule('M', Plus(A(S(Str('a'), Asg('xs', '+=', ID)), S(Str('ab'), Asg('ys', '+=', INT)))))], tags=['kw']),
     G('kw-sep', [Rule('M', Asg('xs', '+=', INT, sep=Str('and')))], tags=['kw']),
     G('kw-regex', [Rule('M', S(Str('b'), Asg('h', '=', Re(r'x[a-c]+')), Opt(Str('end'))))], tags=['kw']),
+    # a suppressed reference to a rule that is one string literal; the same keyword suppressed first, plain later
+    G('kw-suppressed-literal-rule', [Rule('M', S(Sup(Ref('K')), Asg('x', '=', ID), Opt(Ref('K')))), Rule('K', Str('ru'))], tags=['kw']),
+    G('kw-same-keyword-plain-later', [Rule('M', S(Asg('t', '=', Ref('T')), Opt(S(Str(';'), Asg('k', '=', Str('r')))))),
+                                      Rule('T', S(Sup(Str('r')), ID))], tags=['kw']),
     # the same keyword plain in one rule and suppressed in a later one
     G('kw-same-keyword-suppressed-later', [Rule('M', S(Str('b'), Asg('n', '=', ID), Asg('cs', '*=', Ref('C')), Str('e'))),
                                            Rule('C', S(Str('d'), Asg('w', '=', ID), Sup(Str('e'))))],
